@@ -566,6 +566,9 @@ def run(ctx):
 
     ctx.borrow("c17", "C17-R3", "C13-R8", "'help <path>' shows the page of <path>: the help resolver removes exactly the leading help token (position 0, put back on every exit) and no "
                "other occurrence - a sub-command that is itself called 'help' stays in the path")
+    ctx.borrow("c03", "C03-R5", "C13-R12", "'never a disabled command': a disabled command is registered nowhere, at application and at sub-command level alike - the test looks at the configuration of the command being added")
+    ctx.borrow("c11", "C11-R10", "C13-R13", "'no line is wider than the terminal': widths are measured on text stripped by the engine that renders it - a literal '<name>' in an argument label is text for both")
+    ctx.borrow("c08", "C08-R3", "C13-R14", "'help <path> prints the page of <path>': the help resolver edits the token list the raw args hold - every kind of raw args hands out that list itself and derives its option tokens from it")
     return ctx.results
 
 
